@@ -236,12 +236,14 @@ CHECKS = {
         rule=("Sequences: rapid sequences of 2..14 Client.Get calls through ONE caching client against an unchanging chain: 1-3 ranges (so keys recur), ten filters that differ in data plan and in the logs they ask for (none / all / by signature / by address), max reads 1..5, HTTP failures injected into any request of a call. "
               "Oracle: differential against an uncached client on the same chain — same block numbers/hashes/times, same transactions and, restricted to logs matching the caller's own filter, the same logs exactly once (compared on what the caller's plan covers: a shared cached block may carry more); a failed first fetch is not stored; R successful reads of a segment key need >= ceil(R/maxreads) fetches (request counts at the node). "
               "Concurrent: 2..8 goroutines issue such calls at once (transparency only). Head: scripted head announcements (growth, repeats, regressions), with and without the 1 ms poller, failures injected: every (number, hash) returned by Latest was announced by the source; without the poller: Latest(0) always asks, a cached head is never below the caller's floor and serves at most maxreads successive reads. "
-              "non-trivial = callers with different filters hit one cached segment, or a failure was injected, or a head regression was announced."),
-        assumptions=["'successive reads' is only defined for sequential callers; concurrent callers are checked for transparency only"],
+              "InFlightReads: the first caller's download is held inside the node, 1..max-reads-1 further callers ask for the same segment meanwhile, the download is released, the remaining reads up to max reads follow and the next read must go to the source (the count does not depend on whether the callers really overlapped). "
+              "non-trivial = callers with different filters hit one cached segment, or a failure was injected, or a head regression was announced, or readers arrived during a download."),
+        assumptions=["'successive reads' is decided for sequential callers and for at most max-reads-1 callers arriving during one download; more concurrent callers than that are checked for transparency only"],
         units=[
             R("TestC08_Sequences", 3200, 80000, shards=16),
             R("TestC08_Concurrent", 3200, 80000, shards=16),
             R("TestC08_Head", 3200, 80000, shards=16),
+            R("TestC08_InFlightReads", 1600, 40000, shards=8),
         ],
     ),
     "C19": dict(
